@@ -47,7 +47,7 @@ if os.path.exists(dp):
         if 'error' in d:
             out.append(f"| {n} | {summ} | (not run: {d['error'][:80]}) | |")
             continue
-        caught = ', '.join(d['caught_by']) or '**missed**'
+        caught = ', '.join(d['caught_by']) or ('(neutralised by a later fix: commit — see meta.json)' if d.get('neutralised') else '**missed**')
         labels = '; '.join(sorted({re.sub(r'^C\d+-Vsym', '', v) for c in d['checks'].values() for v in c['violations']}))[:160]
         out.append(f"| {n} | {summ} | {caught} | {labels} |")
     out.append("")
